@@ -842,6 +842,10 @@ def documented_cleanups_level(ctx):
          ev_head + ["DTSTART:20240102T100000Z", "CONFERENCE;VALUE=URI;LABEL=Call:https://chat.example.com/audio?id=1,2", "SUMMARY:s"] + ev_tail, None),
         ("an ATTACH link with a comma stays", False,
          ev_head + ["DTSTART:20240102T100000Z", "ATTACH:http://example.org/a,b;c.pdf", "URL:http://example.org/map?ll=48.1,11.5;z=3", "SUMMARY:s"] + ev_tail, None),
+        # vCard 2.1 (legacy exports): type parameters written without "TYPE=" (finding F36: they are dropped)
+        ("the bare type parameters of a vCard 2.1 TEL stay", True,
+         ["BEGIN:VCARD", "VERSION:2.1", "UID:cu", "N:Up;Clean;;;", "FN:Clean Up", "TEL;HOME;VOICE:+1 555 0100", "END:VCARD"],
+         ["BEGIN:VCARD", "VERSION:2.1", "UID:cu", "N:Up;Clean;;;", "FN:Clean Up", "TEL;TYPE=HOME,VOICE:+1 555 0100", "END:VCARD"]),
         # structured values of vCard 4.0 properties (finding F34: the separator comes back escaped, i.e. as part of the first component)
         ("a vCard 4.0 GENDER with identity text stays", True,
          ["BEGIN:VCARD", "VERSION:4.0", "UID:cu", "FN:Clean Up", "N:Up;Clean;;;", "GENDER:M;male", "END:VCARD"], None),
@@ -879,10 +883,14 @@ def documented_cleanups_level(ctx):
             # F34: ";" inside the value of a vCard 4.0 property vobject does not know as structured comes back as "\;"
             vals = sorted(str(d[3]) for d in cut)
             f34 = book and len(cut) == 2 and cut[0][1] == cut[1][1] and cut[0][1] in ("GENDER", "CLIENTPIDMAP", "TEL") and \
-                vals[0].replace("\\;", ";") == vals[1].replace("\\;", ";")
+                vals[0] != vals[1] and vals[0].replace("\\;", ";") == vals[1].replace("\\;", ";")
+            # F36: vCard 2.1 parameters without a name (TEL;HOME;VOICE) are dropped
+            f36 = book and "VERSION:2.1" in up_lines and len(cut) == 2 and cut[0][1] == cut[1][1] and cut[0][3] == cut[1][3] and \
+                any(not d[2] for d in cut)
             ctx.violation("clean-up %r: the served object is not the upload with exactly that edit; differing lines: %s"
-                          % (what, [(d[0], d[1], str(d[3])[:60]) for d in cut][:6]), case, finding="F33" if f33 else "F34" if f34 else None)
-            if f33 or f34:
+                          % (what, [(d[0], d[1], str(d[3])[:60]) for d in cut][:6]), case,
+                          finding="F33" if f33 else "F34" if f34 else "F36" if f36 else None)
+            if f33 or f34 or f36:
                 continue
         if st3 not in (201, 204) or again != served:
             ctx.violation("clean-up %r: the served object is not a fixed point of re-upload" % what, case)
